@@ -312,13 +312,13 @@ PROPS = {
         run=run_c11, replay=replay_olh('stake'), level='proof',
         assumptions=[
             'the stake model OLP/Stake/Model.lean (ports of data/delegation/store.go, action/staking/{stake,unstake,withdraw}.go incl. Validate, HandleStake/HandleUnstake, the deletion / purge / UpdateWithdrawReward / verdict part of GetEndBlockUpdate, fetchPostponedUnstakes) is tied to the working tree by the `stake` engine: every CheckTx, DeliverTx, BeginBlock and EndBlock of the generated histories is re-run statelessly by the compiled model from the decoded pre-state records and must give the same result class and post-state records',
-            'which validators the election purges, which records it allows to be deleted once without power (not in the last commit, inactive for more than two blocks) and which validators the allegation tally finds guilty in an EndBlock are inputs of the model (subjects of C10 / C19); the harness reads them off the implementation (votes, status records, request tombstones); likewise the frozen set, the validator records the store iteration enumerates, and the allegation requests visible to CheckRequestExists',
+            'which validators the election purges, which records it allows to be deleted once without power (not in the last commit, inactive for more than two blocks) and which validators the allegation tally finds guilty in an EndBlock are inputs of the model (subjects of C10 / C19); the harness reads them off the implementation (votes, status records, request tombstones); likewise the frozen set, the validator records the store iteration enumerates, and the pending allegation requests (since d2f2af2 CheckRequestExists also sees a request opened earlier in the same block)',
             'the penalty of a guilty verdict is a big.Float expression; it enters the theorems as a parameter function with 0 <= pen t <= t and is instantiated with round-half-up of 30 % (the options of the generated genesis), compared with the implementation on every verdict',
             'clause 4 (validator record = sum of locked amounts) is proved at full strength: the three defects found by this engine are repaired (KF-C11-1 acb5e5c, KF-C11-2 d8b47b0, KF-C11-3 ebb3d1d + 7abde80) and no hypothesis forced by a defect is left; the remaining hypotheses are well-formedness: verdict lists without duplicates (CleanTracker), a finite address universe, the supply bound staking < 2^63 (calculatePower is Int64()), genesis entries with sane amounts and one stake address per validator, 0 <= penalty <= locked total; the maturity theorem assumes the maturity option is never negative and at least 1 during block 1 (governance admits 109200..468000 only)',
             'genesis Staking entries are modelled as genesisStake transactions of block 1 with amounts in [0, 2^63); a maturing amount loaded from the genesis document (DelegationState.MatureAmounts) is not modelled',
             'SetMatureAmounts sorts with sort.Slice, which is a stable insertion sort up to 12 entries; the model sorts stably (longer maturing lists of one height with equal addresses are outside the correspondence)',
         ],
-        model_limits='the frozen-owner guard of WITHDRAW goes over the validator records the store iteration enumerates (records that existed at the last commit; a record created in the running block cannot be frozen, STAKE refuses a frozen validator); the unstake guard against pending allegations cannot see a request created earlier in the same block (State.IterateRange enumerates committed keys only; counted, not part of the property as stated); fee handling and every other balance movement are environment (Tx.credit)'),
+        model_limits='the frozen-owner guard of WITHDRAW goes over the validator records the store iteration enumerates (records that existed at the last commit; a record created in the running block cannot be frozen, STAKE refuses a frozen validator); fee handling and every other balance movement are environment (Tx.credit)'),
     'C13': dict(
         lean_modules=['OLP.Props.C13', 'OLP.Props.C13Arith'], namespaces=['OLP.Props.C13'],
         required_theorems=['consumed_le_pulled', 'credited_le_consumed', 'credited_le_pulled', 'absent_not_credited', 'consumed_eq_recorded',
@@ -380,16 +380,16 @@ PROPS = {
                            'guilty_cannot_stake_until_release', 'penalty_exact_and_bounty_le_penalty',
                            'release_only_after_time', 'guilty_released_only_after_time', 'guilty_verdict_starts_the_clock',
                            'tally_order_independent', 'guilty_dropped_from_set',
-                           'cleanup_keeps_requests_partial', 'duplicate_request_dropped', 'required_votes_is_source', 'verdict_is_source'],
+                           'cleanup_keeps_requests', 'one_open_request_per_address', 'second_allegation_refused', 'tally_follows_verdict_reachable', 'required_votes_is_source', 'verdict_is_source'],
         run=run_c19, replay=replay_olh('alleg'), level='proof',
         assumptions=[
             'big.Float: the penalty Int(stake*base%/dec + 0.5) is a PARAMETER of the model (FloatOps.penalty); penalty_exact_and_bounty_le_penalty assumes it equals the exact rounding floor((2*stake*pct+dec)/(2*dec)) (Exact F). The harness evaluates the same big.Float expression on every tally line and counts every stake for which it differs from the exact reading (distribution float:penalty-differs-from-exact, never observed; exact for stake*base% < 2^53). The thresholds (required votes, guilty / innocent tests) are integer arithmetic in the code since 1d3139c and carry no assumption',
             'block times are whole seconds in UTC, so LastValidatorHistory.FrozenAt.AddDate(0,0,d) is +86400*d seconds; block times do not decrease (TimeFrom premise of guilty_released_only_after_time)',
             'the heap order in which GetEndBlockUpdate pops the validators is an input of the election model (it is C10\'s subject); the harness obtains it from the repo\'s own queue types on the committed records',
             'transaction admission (signatures, fee payer has a validator record) enters the model as two flags computed by the harness from the transaction bytes and the pre-state; balances, maturity and the validator-record side of STAKE/UNSTAKE/WITHDRAW belong to C11 (only their allegation guards and delegation-store effects are modelled; the validator records the WITHDRAW owner guard iterates are an input)',
-            'State.IterateRange walks the keys of the COMMITTED tree only (values read through the caches): the model carries the committed request ids explicitly; two allegations against one address in one block both succeed and CleanTracker removes the second at the block end (cleanup_keeps_requests_partial / duplicate_request_dropped: the one clause still proved under a forced hypothesis)',
+            'store iterations: IterateRequests (CheckRequestExists: duplicate check of ALLEGATION, open-request guard of UNSTAKE) goes through State.IterateRangeAll since d2f2af2 and sees every visible request, the model iterates its own request records; the other iterations of the subsystem (IterateSuspiciousValidators at BeginBlock, Validators.Iterate of the WITHDRAW owner guard) still walk committed keys only: the validator records of the owner guard are an input of the model (records with committed keys, current values), which covers every frozen validator because IsFrozenValidator itself reads through the cache',
         ],
-        model_limits='the monitor checks "drops out of the validator set" on the application\'s own election (update list and status records) at every height and, for validators that keep a record, on the simulated Tendermint set after 6 consecutive blocks IN WHICH SOMEBODY IS ELECTED: with nobody elected the application keeps the last set (c5836bc, Tendermint cannot run with an empty set), so a convicted last validator stays in Tendermint\'s set until somebody else qualifies (by design). Errors of balance.AddToAddress / delayHandleUnstake inside the tally (the `continue` paths after them) are not modelled (never observed); the refused-debit branch of the slash (MinusFromAddress is all-or-nothing since 7abde80, charged to the current stake address since ebb3d1d) is modelled and proved but not reached by generated histories (the staking handlers keep the three records equal). The eight regression scenarios of the repaired defects (corpus/C19, harness/apph/alleg_script.go) run first in every check and must end in the repaired outcome without any monitor signature.'),
+        model_limits='the monitor checks "drops out of the validator set" on the application\'s own election (update list and status records) at every height and, for validators that keep a record, on the simulated Tendermint set after 6 consecutive blocks IN WHICH SOMEBODY IS ELECTED: with nobody elected the application keeps the last set (c5836bc, Tendermint cannot run with an empty set), so a convicted last validator stays in Tendermint\'s set until somebody else qualifies (by design). Errors of balance.AddToAddress / delayHandleUnstake inside the tally (the `continue` paths after them) are not modelled (never observed); the refused-debit branch of the slash (MinusFromAddress is all-or-nothing since 7abde80, charged to the current stake address since ebb3d1d) is modelled and proved but not reached by generated histories (the staking handlers keep the three records equal). The nine regression scenarios of the repaired defects (corpus/C19, harness/apph/alleg_script.go) run first in every check and must end in the repaired outcome without any monitor signature.'),
     'C14': dict(
         lean_modules=['OLP.Props.C14', 'OLP.Props.C14Arith'], namespaces=['OLP.Props.C14'],
         required_theorems=['wf_init', 'wf_reachable', 'active_copy_is_exclusive', 'stage_monotone', 'stage_monotone_history',
